@@ -268,12 +268,31 @@ func (w *world) ctxQuery(gid int) {
 
 // await waits for n hook events from goroutines inside Lock.
 func (w *world) await(n int, what string) bool {
+	// Not a timing assumption: an awaited event is missing only when every
+	// other goroutine is blocked and the event queue is empty; the deadline
+	// only bounds a livelock.
+	deadline := time.Now().Add(60 * time.Second)
 	for i := 0; i < n; i++ {
-		select {
-		case <-w.tr.events:
-		case <-time.After(5 * time.Second):
-			w.tr.run.Fail("", "no-progress "+what)
-			return false
+		for got := false; !got; {
+			select {
+			case <-w.tr.events:
+				got = true
+			default:
+				if !othersBusy() {
+					select {
+					case <-w.tr.events:
+						got = true
+					default:
+						w.tr.run.Fail("", "no-progress "+what)
+						return false
+					}
+				} else if time.Now().After(deadline) {
+					w.tr.run.Fail("", "no-progress "+what+" (goroutines still running)")
+					return false
+				} else {
+					runtime.Gosched()
+				}
+			}
 		}
 	}
 	return true
